@@ -26,6 +26,9 @@ RULE = ("documents: jsongen valid texts, byte-mutated texts, texts padded to 409
         "{EIO, EINTR, one of EAGAIN/EBADF/ENOSPC/EPIPE/EDQUOT/EFBIG/ENOMEM/untouched} and at random positions otherwise; open() failing with ENOENT/EACCES/EINTR/EMFILE/EISDIR; "
         "file-system histories (1-5 steps of to_file_ext / to_file / from_file over paths a,b,c): fresh path, existing longer (+1,+2,+17,+300) / "
         "equal / shorter file, second write shrinking and growing, read back, absent path, other files untouched; "
+        "positioned descriptors (DR/DW): from_fd(_ex)/to_fd on a regular-file descriptor opened read-only / read-write / O_APPEND / write-only by the "
+        "caller and standing at every offset 0..len of header+text files (end of file included), all other descriptor calls "
+        "(lseek pread pwrite fstat ftruncate fsync fdatasync dup dup2 fcntl readv writev mmap fdopen posix_fadvise) recorded on every line; "
         "failure reports (N): from_file / to_file_ext / to_file on file names with printf metacharacters (%d %s %n %x %% lone % %5$s %*d ...), "
         "names of 150..5000 bytes around the 256-byte message buffer, plain names x open() failing (ENOENT EACCES ENOTDIR EMFILE ENAMETOOLONG ...) "
         "or the first read()/write() failing; "
@@ -323,6 +326,64 @@ def gen(rng, tier):
                 out.append(("fd F %s %s %s %d %s %s" % (which, ok, t, fl, sc, ser), {"kind": "FW-" + ("open" if ok == "1" else "noopen") + "/" + sk}))
     out += gen_histories(rng, tier, [(t, fl, sers[(t, fl)]) for (t, fl, _) in trees if (t, fl) in sers])
     out += gen_names(rng, tier)
+    out += gen_descriptors(rng, tier, docs, [(t, fl, sers[(t, fl)]) for (t, fl, _) in trees if (t, fl) in sers])
+    return out
+
+
+HEADERS = [b"", b"#hdr\n", b"[0]\n", b'{"first":1}\n', b"\x00\x01\x02 binary header \xff", b"x" * 100 + b"\n"]
+
+
+def gen_descriptors(rng, tier, docs, pool):
+    """the descriptor is the caller's: a regular file opened read-only / read-write / O_APPEND /
+    write-only elsewhere and left standing at ANY offset 0..len (behind a header line or an earlier
+    document, in the middle of the text, at the end of the file)"""
+    out = []
+    texts = [b"[1,2]\n", b'{"a":[1,{"b":null}]}', b"42", b"true\n", b"null", b"[1,2", b"", b"[1] [2] [3]\n", b'"abc"  \n\n']
+    texts += [t for (t, _, k) in docs if k == "valid" and len(t) < 200][:25 if tier == "quick" else 400]
+    big = [t for (t, _, k) in docs if k == "sized"][:2 if tier == "quick" else 12]
+    for i, t in enumerate(texts + big):
+        for hdr in (HEADERS if i < 9 else [rng.choice(HEADERS)]):
+            file = hdr + t
+            L = len(file)
+            if L <= 26 and i < 9:
+                offs = list(range(L + 1))                     # every offset, the end included
+            else:
+                offs = sorted(set([0, len(hdr), L, max(0, L - 1), min(L, len(hdr) + 1), rng.randint(0, L), rng.randint(0, L)]))
+            for off in offs:
+                rest = L - off
+                mode = "r" if rng.random() < 0.5 else rng.choice("rbaw")
+                d = rng.choice(["-1", "-1", "fd", "3", "32"] + (["0"] if rng.random() < 0.05 else []))
+                r = rng.random()
+                if L > 1000:
+                    sc = rng.choice(["-", sched_str([BUF] * (rest // BUF + 1)), sched_str(rand_sizes(rng, rest, True))])
+                elif r < 0.35:
+                    sc = "-"
+                elif r < 0.55:
+                    sc = sched_str([1] * (rest + 1))
+                elif r < 0.85:
+                    sc = sched_str(rand_sizes(rng, rest, False))
+                else:
+                    pre = rand_sizes(rng, rest, False)
+                    sc = sched_str(pre[:rng.randint(0, len(pre))] + [err_item(rng.choice(ERRNOS_R))])
+                out.append(("fd DR %s %s %d %s %s" % (mode, hx(file), off, d, sc), {"kind": "DR-" + mode + ("-at0" if off == 0 else ("-ateof" if off == L else "-mid"))}))
+    # writes through a positioned descriptor
+    small = sorted([x for x in pool if len(x[2]) <= 400], key=lambda x: (len(x[2]), x[0], x[1]))
+    picks = small[:4] + small[len(small) // 2:len(small) // 2 + 3] + small[-3:] + [rng.choice(small) for _ in range(20 if tier == "quick" else 400)] if small else []
+    for (t, fl, ser) in picks:
+        S = len(unhx(ser))
+        for oldlen in sorted(set([0, 1, max(0, S - 1), S, S + 1, S + 30])):
+            old = junk(rng, oldlen)
+            for off in sorted(set([0, oldlen, oldlen // 2, max(0, oldlen - 1)])):
+                mode = "w" if rng.random() < 0.5 else rng.choice("wbar")
+                r = rng.random()
+                if r < 0.4:
+                    sc = "-"
+                elif r < 0.8:
+                    sc = sched_str(rand_sizes(rng, S, False))
+                else:
+                    pre = rand_sizes(rng, S, False)
+                    sc = sched_str(pre[:rng.randint(0, len(pre))] + [err_item(rng.choice(ERRNOS_W))])
+                out.append(("fd DW %s %s %d %s %d %s %s" % (mode, hx(old), off, t, fl, sc, ser), {"kind": "DW-" + mode}))
     return out
 
 
@@ -628,6 +689,80 @@ def o_history(t, impl):
     return None
 
 
+def o_desc_read(t, o):
+    """a positioned descriptor handed to from_fd(_ex): what is parsed is file[offset:], the descriptor
+    ends at the end of the file, the file is untouched"""
+    mode, file, off, depth_s, sched = t[2], unhx(t[3]), int(t[4]), t[5], sched_parse(t[6])
+    if len(o) != 12 or o[0] != "DR":
+        return ("malformed", "unexpected driver output: " + " ".join(o)[:120])
+    result, msg, ref, endoff, same, leak = o[1], o[2], o[7], int(o[9]), o[10], int(o[11])
+    eff = 32 if depth_s in ("-1", "fd") else int(depth_s)
+    rest = file[off:]
+    if leak != 0:
+        return ("leak", "%d allocation(s) still live after the read call and release of its result" % leak)
+    if same != "=":
+        return ("read-modified-file", "reading through the descriptor changed the file")
+    if result == "NULL" and msg != "1":
+        return ("failure-without-message", "NULL returned but json_util_get_last_err() is NULL")
+    if eff < 1:
+        if result != "NULL":
+            return ("bad-depth-accepted", "depth %d: result %s" % (eff, result[:40]))
+        return None
+    if mode == "w":
+        if result != "NULL":
+            return ("read-error-unreported", "write-only descriptor: read() fails with EBADF but a tree was returned: %s" % result[:60])
+        return None
+    w = walk_read(len(rest), sched)
+    if w[0] == "err":
+        resumed = w[2] == "E:EINTR" and unhx(o[6]) == rest and o[4] in ("1", "2") and result == ref
+        if result != "NULL" and not resumed:
+            return ("read-error-unreported", "read() failed (%s) after %d of %d bytes but a tree was returned: %s" % (w[2], w[1], len(rest), result[:60]))
+        if result == "NULL" and endoff != off + w[1]:
+            return ("descriptor-position", "descriptor handed over at offset %d, %d bytes delivered before the failing read(): it stands at %d" % (off, w[1], endoff))
+    elif w[0] == "done":
+        if result != ref:
+            return ("read-not-from-position", "descriptor handed over at offset %d of a %d-byte file: result %s, parsing file[%d:] from memory gives %s"
+                    % (off, len(file), result[:70], off, ref[:70]))
+        if endoff != len(file):
+            return ("descriptor-position", "descriptor handed over at offset %d of a %d-byte file stands at %d afterwards, not at the end" % (off, len(file), endoff))
+        return calls_clause(o[4], o[8])
+    return None
+
+
+def o_desc_write(t, o):
+    """a positioned descriptor handed to to_fd: the serialization lands where the descriptor stands
+    (at the end with O_APPEND), the rest of the file stays, the descriptor moves behind it"""
+    mode, old, off, tree, sched = t[2], unhx(t[3]), int(t[4]), t[5], sched_parse(t[7])
+    if len(o) != 9 or o[0] != "DW":
+        return ("malformed", "unexpected driver output: " + " ".join(o)[:120])
+    rc, msg, ser, endoff, file, leak = int(o[1]), o[2], unhx(o[5]), int(o[6]), unhx(o[7]), int(o[8])
+    if leak != 0:
+        return ("leak", "%d allocation(s) still live after the write call and release of the tree" % leak)
+    if rc == -1 and msg != "1":
+        return ("failure-without-message", "write returned -1 but json_util_get_last_err() is NULL")
+    at = len(old) if mode == "a" else off
+    if tree == "n" or mode == "r":
+        if rc != -1 or file != old or endoff != off:
+            return ("null-object" if tree == "n" else "write-error-unreported",
+                    "%s: rc=%d, file %s, descriptor at %d (was %d)" % ("NULL object" if tree == "n" else "read-only descriptor (EBADF)", rc, "changed" if file != old else "unchanged", endoff, off))
+        return None
+    w = walk_write(len(ser), sched)
+    if w[0] == "zero":
+        return None
+    n = len(ser) if w[0] == "done" else w[1]
+    want = old[:at] + ser[:n] + old[at + n:]
+    if w[0] == "done" and rc != 0:
+        return ("write-spurious-failure", "no write failed, yet rc=%d" % rc)
+    if w[0] == "err" and rc != -1:
+        return ("write-error-unreported", "write() failed (%s) after %d bytes but rc=%d" % (w[2], w[1], rc))
+    if file != want:
+        return ("write-not-at-position", "descriptor handed over at offset %d%s of a %d-byte file: %d of %d bytes went out, the file is not old[:%d] + them + old[%d:] (it has %d bytes)"
+                % (off, " (O_APPEND)" if mode == "a" else "", len(old), n, len(ser), at, at + n, len(file)))
+    if endoff != (at + n if n else off):
+        return ("descriptor-position", "descriptor stands at %d after %d bytes written from %d" % (endoff, n, at))
+    return None
+
+
 def o_names(t, o):
     """the failure report for an arbitrary file name: a clean failure (no crash: checked by the
     caller), a retrievable NUL-terminated message naming the file verbatim and carrying the errno text"""
@@ -669,8 +804,20 @@ def oracle(line, meta, impl):
     o = impl.split(" ")
     if "BADFD" in o:
         return ("bad-fd", "read/write/close called on a descriptor other than the one given/opened")
+    other = [x for x in o if x.startswith("OTHER:")]
+    o = [x for x in o if not x.startswith("OTHER:")]
+    impl = " ".join(o)
     if "DEVOVERFLOW" in o:
         return ("write-overrun", "more than twice the serialization was written")
+    v = dispatch(t, o, impl)
+    if v is None and other:
+        # the behaviour was right, but the descriptor is the caller's: nothing but read()/write()
+        return ("foreign-descriptor-call", "json_util.c did more to the descriptor than read()/write() (and open()/close() of its own files): %s"
+                % other[0][6:].replace("+", ", "))
+    return v
+
+
+def dispatch(t, o, impl):
     try:
         if t[1] == "W":
             return o_write(t[2], sched_parse(t[4]), o, False, True)
@@ -684,11 +831,15 @@ def oracle(line, meta, impl):
             return o_history(t, impl)
         if t[1] == "N":
             return o_names(t, o)
+        if t[1] == "DR":
+            return o_desc_read(t, o)
+        if t[1] == "DW":
+            return o_desc_write(t, o)
         if t[1] == "S":
             return None
     except (ValueError, IndexError) as e:
         return ("malformed", "unexpected driver output (%r): %s" % (e, impl[:120]))
-    return ("malformed", "unknown op in " + line[:60])
+    return ("malformed", "unknown op in " + " ".join(t)[:60])
 
 
 def classify(line, meta, mo, co):
@@ -707,6 +858,10 @@ def nontrivial(line, meta, impl):
                 return line
         if o[0] == "N" and o[2] == "1":
             return line
+        if o[0] == "DR" and t[4] != "0":
+            return line
+        if o[0] == "DW" and o[1] == "0":
+            return line
         if o[0] in ("R", "FR"):
             if int(o[3]) >= 3 or o[4] == "2" or (o[1] == "NULL" and o[4] == "0" and int(o[3]) >= 1):
                 return line
@@ -723,6 +878,12 @@ def shrink(ck, line, cls):
         m, c, _ = ck.run_pair([l], "shrink")
         v = oracle(l, {}, c.get(1, "MISSING"))
         return v is not None and v[0] == cls
+    if t[1] in ("DR", "DW"):
+        si = 6 if t[1] == "DR" else 7
+        items = sched_parse(t[si])
+        if len(items) >= 2:
+            t[si] = sched_str(fw.ddmin(items, lambda sub: fails(" ".join(t[:si] + [sched_str(sub)] + t[si + 1:])), budget=10))
+        return " ".join(t)
     if t[1] == "N":
         name = list(unhx(t[5]))
         if len(name) >= 2:
@@ -763,11 +924,14 @@ LEVEL_TEXT = ("Machine-checked (Coq, induction on transfer schedules, no axioms,
               "open() flags as data (O_WRONLY|O_TRUNC|O_CREAT, O_RDONLY): for every initial file system a successful json_object_to_file_ext leaves exactly "
               "the serialization in the file and every other file untouched, a failed one leaves the delivered prefix, a refused open changes nothing; "
               "without O_TRUNC a longer file keeps its stale tail (stated); reading never changes the file system; write-then-read is the one "
-              "in-memory parse of the serialization. The model is tied to json_util.c "
+              "in-memory parse of the serialization. A descriptor handed to json_object_from_fd_ex at any position 0..|file| yields the parse of file[pos:] and "
+              "is left at the end of the file (C20_read_as_memory_at); json_object_to_fd puts the serialization at the position (at the end with O_APPEND) and "
+              "leaves the rest of the file alone. The model is tied to json_util.c "
               "on every run by differential execution against the sanitizer build with interposed read/write/open/close.")
 LEVEL_NOTE = ("Trusted: Coq kernel; extraction + OCaml glue; the scripted stubs; the theorems are about the Gallina model, tied to the C code only by "
               "the sampled correspondence. The serializer, the tokener and the print buffer are arguments/oracles of this model (C02, C01, C19). "
-              "What a failure message SAYS (NUL-terminated inside its buffer, names the file verbatim or ends in a prefix of it, carries the strerror text) "
+              "That json_util.c makes no call on a descriptor other than read()/write() (open()/close() for its own files) is an observation of the recording "
+              "stubs (the model simply has no other descriptor operation). What a failure message SAYS (NUL-terminated inside its buffer, names the file verbatim or ends in a prefix of it, carries the strerror text) "
               "is an oracle-only observation on the C side, printed as three booleans, never as text: the model only states THAT a message is set and which one. "
               "json_object_to_fd(NULL object) is a refused call (-1 with message), and a successfully parsed top-level 'null' is returned as NULL "
               "with a message set: both are modelled as written. Allocation failure is not exercised here (C08).")
